@@ -447,6 +447,8 @@ def run(ctx: Ctx) -> None:
     missing = [v for k, v in need.items() if k not in txt]
     ctx.check(not missing, "R-C05.2", f"{cc.name}.EXTENSION_OPS_WITH_SIDE_EFFECTS", cc.rel, {"missing": missing},
               "an operation kind with an observable effect is not ordered relative to the others")
+    from . import c05_sideeffect_ops
+    c05_sideeffect_ops.run(ctx)
     from . import c05_tracker as _c05t
     if not _c05t.run_classifier(ctx):
         # fallback: the `case ops.Call() | ops.CallIndirect(): return True` arm by its shape
